@@ -1,6 +1,6 @@
 (* C10 — pollers report exactly the registered-and-ready descriptors; Select, Poll and EPoll agree.
-   Only statements here; proofs live in Proofs/PollerP.v.  The model (Model/Poller.v) is the model of the
-   REPAIRED Poll._process (fixes/C10_poll_closed_descriptor.patch).
+   Only statements here; proofs live in Proofs/PollerP.v.  The model (Model/Poller.v) follows /repo HEAD, i.e. it
+   includes the repaired Poll._process (staleness test) and EPoll._updateRegistration dropping its _map entries.
 
    Reading guide.  [reach k s]: s is reachable from the empty poller of kind k by any history of
    Open / Close / AddR / AddW / RemR / RemW / Discard / Tick steps that do not raise, respecting the API precondition
@@ -131,6 +131,71 @@ Proof.
 Qed.
 Print Assumptions C10_agree.
 
+(* ---- agreement along whole histories.
+   [joint k h s1 s2]: the same history h has been applied, step by step and without raising, to Select (reaching s1)
+   and to k = Poll / EPoll (reaching s2), every step satisfying [joint_pre]: the API precondition on both sides; a
+   descriptor that Poll/EPoll have hung up on is discarded before it is registered again; descriptors are discarded
+   before they are closed; every status has select-readable = POLLIN and select-writable = POLLOUT ([consistent]).
+   [joint] is built by appending steps, so the theorems speak about every prefix of a history.
+   [Rel s1 s2]: same descriptor table; Poll/EPoll's lists are subsets of Select's; on every descriptor Poll/EPoll
+   still have registered, roles and target coincide.  [dropped s1 s2 o] = registered for Select, not for Poll/EPoll. *)
+Theorem C10_agree_history : forall k h s1 s2, k <> KSelect -> joint k h s1 s2 ->
+  Rel s1 s2 /\ reach KSelect s1 /\ reach k s2.
+Proof. exact agree_history. Qed.
+Print Assumptions C10_agree_history.
+
+(* the iteration after any such history: Poll/EPoll's read events are Select's restricted to the descriptors they still
+   have; their write events additionally leave out the descriptors in hang-up-only state, for which they emit
+   _disconnect (iff) and drop the registration (iff); Select emits no _disconnect and keeps its state *)
+Theorem C10_agree_history_events : forall k h s1 s2 st order, k <> KSelect -> joint k h s1 s2 ->
+  order_ok s2 order -> (forall f, consistent (st f)) ->
+  let e1 := snd (tick KSelect s1 st order) in
+  let e2 := snd (tick k s2 st order) in
+  let s2' := fst (tick k s2 st order) in
+  (forall o c, In (ERead o c) e2 <-> In (ERead o c) e1 /\ registered s2 o) /\
+  (forall o c, In (EWrite o c) e2 <->
+               In (EWrite o c) e1 /\ registered s2 o /\ forall f, fds s2 o = Some f -> hang_only s2 st o f = false) /\
+  (forall o c, In (EDisc o c) e2 <->
+               registered s2 o /\ c = target s2 o /\ exists f, fds s2 o = Some f /\ hang_only s2 st o f = true) /\
+  (forall o c, ~ In (EDisc o c) e1) /\
+  fst (tick KSelect s1 st order) = s1 /\
+  (forall o, registered s2 o -> (~ registered s2' o <-> exists c, In (EDisc o c) e2)).
+Proof. exact agree_history_events. Qed.
+Print Assumptions C10_agree_history_events.
+
+(* the hang-up difference, stated as a relation instead of an exclusion *)
+Theorem C10_hangup_difference : forall k h s1 s2 st order o c, k <> KSelect -> joint k h s1 s2 ->
+  order_ok s2 order -> (forall f, consistent (st f)) ->
+  let e1 := snd (tick KSelect s1 st order) in
+  let e2 := snd (tick k s2 st order) in
+  let s2' := fst (tick k s2 st order) in
+  (In (ERead o c) e2 -> In (ERead o c) e1) /\ (In (EWrite o c) e2 -> In (EWrite o c) e1) /\
+  (In (ERead o c) e1 -> In (ERead o c) e2 \/ dropped s1 s2 o) /\
+  (In (EWrite o c) e1 -> In (EWrite o c) e2 \/ dropped s1 s2 o \/
+                         ((exists c', In (EDisc o c') e2) /\ ~ registered s2' o)).
+Proof. exact hangup_difference. Qed.
+Print Assumptions C10_hangup_difference.
+
+(* how the difference evolves: only a _disconnect in an iteration enlarges it; discard(o) by the client removes o
+   from it; no other operation adds to it *)
+Theorem C10_resync : forall k h s1 s2 x s1' e1 s2' e2 o, k <> KSelect -> joint k h s1 s2 -> joint_pre s1 s2 x ->
+  step KSelect s1 x = Ok s1' e1 -> step k s2 x = Ok s2' e2 ->
+  match x with
+  | Discard o' => dropped s1' s2' o <-> dropped s1 s2 o /\ o <> o'
+  | Tick _ _ => dropped s1' s2' o <-> dropped s1 s2 o \/ exists c, In (EDisc o c) e2
+  | _ => dropped s1' s2' o -> dropped s1 s2 o
+  end.
+Proof. exact resync. Qed.
+Print Assumptions C10_resync.
+
+(* once every hung-up descriptor has been discarded the pollers are in full agreement again: equal lists, targets and
+   descriptor table, i.e. the hypotheses of C10_agree *)
+Theorem C10_synced : forall k h s1 s2, k <> KSelect -> joint k h s1 s2 -> (forall o, ~ dropped s1 s2 o) ->
+  (forall o, In o (rd s1) <-> In o (rd s2)) /\ (forall o, In o (wr s1) <-> In o (wr s2)) /\
+  (forall o, tg s1 o = tg s2 o) /\ (forall o, fds s1 o = fds s2 o).
+Proof. exact synced_history. Qed.
+Print Assumptions C10_synced.
+
 (* ---- non-vacuity *)
 Definition rdy : status := {| pin := true; pout := true; phup := false; perr := false; sr := true; sw := true |}.
 
@@ -162,4 +227,31 @@ Proof.
   - simpl. repeat split; auto.
     + constructor; [intros [] | constructor].
     + intros f Hf. unfold upd in Hf. simpl in Hf. destruct f; [left; reflexivity | simpl in Hf; congruence].
+Qed.
+
+(* hang-up: registered for writing only, peer closes.  Select keeps reporting write; Poll / EPoll disconnect once and
+   drop; after the client's discard nothing is reported by anyone *)
+Definition hup : status := {| pin := true; pout := true; phup := true; perr := false; sr := true; sw := true |}.
+Definition hangup_hist : list op :=
+  [Open 1 0; AddW 2 1; Tick (fun _ => rdy) [0]; Tick (fun _ => hup) [0]; Tick (fun _ => hup) [0]; Discard 1; Tick (fun _ => hup) [0]].
+Example C10_ex_hangup_select :
+  map snd (fst (fst (run KSelect init hangup_hist))) = [[EWrite 1 2]; [EWrite 1 2]; [EWrite 1 2]; []].
+Proof. vm_compute. reflexivity. Qed.
+Example C10_ex_hangup_poll :
+  map snd (fst (fst (run KPoll init hangup_hist))) = [[EWrite 1 2]; [EDisc 1 2]; []; []].
+Proof. vm_compute. reflexivity. Qed.
+Example C10_ex_hangup_epoll :
+  map snd (fst (fst (run KEPoll init hangup_hist))) = [[EWrite 1 2]; [EDisc 1 2]; []; []].
+Proof. vm_compute. reflexivity. Qed.
+
+(* a jointly valid history (hypotheses of the history theorems are satisfiable, with a non-trivial state) *)
+Example C10_ex_joint : exists s1 s2, joint KEPoll [Open 1 0; AddW 2 1] s1 s2 /\ In 1 (wr s1) /\ In 1 (wr s2) /\ tg s2 1 = Some 2.
+Proof.
+  eexists. eexists. split.
+  - change [Open 1 0; AddW 2 1] with (([] ++ [Open 1 0]) ++ [AddW 2 1]).
+    eapply joint_snoc; [eapply joint_snoc; [apply joint_nil | | reflexivity | reflexivity] | | reflexivity | reflexivity].
+    + repeat split.
+    + split; [simpl; intros [] | split; [simpl; intros [] |]].
+      intros [[H|H] _]; simpl in H; destruct H.
+  - simpl. auto.
 Qed.
